@@ -5,6 +5,7 @@ import UtpVerif.Driver.TxRing
 import UtpVerif.Driver.Rx
 import UtpVerif.Driver.Segments
 import UtpVerif.Driver.VSock
+import UtpVerif.Driver.Cubic
 /-!
 Line-protocol driver: one op per input line (`<component> <op> args…`), one output line per op.
 The Rust harness (`/verif/harness`) executes the same lines on the real code; `tools/check.py`
@@ -19,6 +20,7 @@ structure St where
   rx : RxSt := {}
   segs : Segments := Segments.new 0
   vs : VsSt := {}
+  cubic : Option Cubic := none
   txPos : Nat := 0   -- bytes accepted so far (position-coded payload generator)
 
 def step (st : St) (line : String) : St × String :=
@@ -37,6 +39,7 @@ def step (st : St) (line : String) : St × String :=
   | "rx" :: args => let (r, o) := stepRx st.rx args; ({ st with rx := r }, o)
   | "seg" :: args => let (r, o) := stepSegs st.segs args; ({ st with segs := r }, o)
   | "vs" :: args => let (r, o) := stepVs st.vs args; ({ st with vs := r }, o)
+  | "cubic" :: args => let (r, o) := stepCubic st.cubic args; ({ st with cubic := r }, o)
   | "rtte" :: args => let (r, o) := stepRtte st.rtte args; ({ st with rtte := r }, o)
   | _ => (st, "bad-op")
 
